@@ -99,6 +99,23 @@ type Exec struct {
 	usedExterns map[string]bool
 	sweepSet    map[*ssa.Function]bool
 	topName     string
+	liveObjs    []liveObj
+	owned       []ownedLoc
+}
+
+// ownedLoc: a field of an object that only code handed the object may write (contract clause "owns").
+type ownedLoc struct {
+	ptr string
+	key string
+}
+
+// liveObj is an object allocated by this execution whose address provably never leaves the
+// function (and the closures it calls directly): no callee can write it.
+type liveObj struct {
+	ptr   string
+	typ   types.Type
+	owner *ssa.Function
+	alloc *ssa.Alloc
 }
 
 func newExec(p *Prog, db *ContractDB) *Exec {
@@ -367,6 +384,71 @@ func (x *Exec) havocKeys(st *State, keys []string) {
 		case strings.HasPrefix(k, "X|"):
 		default:
 			x.havocMem(st, k)
+		}
+	}
+}
+
+// havocKeysCall havocs the memory a call may write, but keeps the contents of objects that
+// cannot have escaped to the callee.
+func (x *Exec) havocKeysCall(st *State, keys []string, args []string) {
+	if len(x.liveObjs) == 0 && len(x.owned) == 0 {
+		x.havocKeys(st, keys)
+		return
+	}
+	before := map[string]string{}
+	for _, k := range keys {
+		if srt, ok := x.vc.memSorts[k]; ok {
+			before[k] = x.memGet(st, k, srt)
+		}
+	}
+	x.havocKeys(st, keys)
+	for _, o := range x.liveObjs {
+		x.preserveObj(st, o.typ, o.ptr, before)
+	}
+	for _, o := range x.owned {
+		handed := false
+		for _, a := range args {
+			if a == o.ptr {
+				handed = true
+			}
+		}
+		if handed {
+			continue
+		}
+		if old, ok := before[o.key]; ok {
+			cur := x.memGet(st, o.key, x.vc.memSorts[o.key])
+			if cur != old {
+				x.vc.assert(fmt.Sprintf("(= (select %s %s) (select %s %s))", cur, o.ptr, old, o.ptr))
+			}
+		}
+	}
+}
+
+func (x *Exec) preserveObj(st *State, t types.Type, p string, before map[string]string) {
+	switch u := t.Underlying().(type) {
+	case *types.Struct:
+		for i := 0; i < u.NumFields(); i++ {
+			ft := u.Field(i).Type()
+			if _, ok := ft.Underlying().(*types.Struct); ok {
+				x.preserveObj(st, ft, fmt.Sprintf("(pfld %s %d)", p, x.vc.fieldID(t, i)), before)
+				continue
+			}
+			k := fieldMemKey(t, i)
+			if old, ok := before[k]; ok {
+				cur := x.memGet(st, k, x.vc.memSorts[k])
+				if cur != old {
+					x.vc.assert(fmt.Sprintf("(= (select %s %s) (select %s %s))", cur, p, old, p))
+				}
+			}
+		}
+	case *types.Array:
+	default:
+		k := cellMemKey(t)
+		if old, ok := before[k]; ok {
+			cur := x.memGet(st, k, x.vc.memSorts[k])
+			if cur != old {
+				x.vc.assert(fmt.Sprintf("(= (select %s %s) (select %s %s))", cur, p, old, p))
+			}
 		}
 	}
 }
